@@ -11,7 +11,7 @@ harness prints a `context.Canceled` / `context.DeadlineExceeded` that `Next` ret
 `deadline`: no reachable state of the LTS of the code as it is shows either (the first recorded error is
 always earlier), so such a trace is rejected whichever of the three it was.
 
-`parstream` lines: `init <P> <B> <gmp>`, `time` (virtual time passes; not a label), `next 1|0` (consumer calls Next with a live / expired
+`parstream` lines: `init <P> <B> <gmp> [slow] [dead]` (`dead`: the caller's context is done before `MapStream` is called), `time` (virtual time passes; not a label), `next 1|0` (consumer calls Next with a live / expired
 context), `expire`, `close`, `pcancel`, `src item <v>` | `src end` | `src err <k>` (the pending source
 call returns), `f <idx> ok <v>` | `f <idx> err <k>` (the pending call of f returns), `obs <observation>`.
 The instrumented source of the harness returns `ctx.Err()` by itself when its context is done and its
@@ -116,6 +116,16 @@ def step (d : DSt) : List String → DSt × String
   | ["init", p, b, g, "slow"] =>
     let cfg : Cfg := { code := code, P := intOr p, B := intOr b, gmp := natOr g 1 }
     act { d with cfg := cfg, states := [init cfg], overflow := false, slow := true } some
+  -- `dead`: the context handed to `MapStream` is already done when `MapStream` is called: the environment's
+  -- `parentCancel` is the first label, before any step of the dispatcher, the workers or the consumer
+  | ["init", p, b, g, "dead"] =>
+    let cfg : Cfg := { code := code, P := intOr p, B := intOr b, gmp := natOr g 1 }
+    act { d with cfg := cfg, states := [init cfg], overflow := false, slow := false }
+      (fun s => Stream.step cfg s .parentCancel)
+  | ["init", p, b, g, "slow", "dead"] =>
+    let cfg : Cfg := { code := code, P := intOr p, B := intOr b, gmp := natOr g 1 }
+    act { d with cfg := cfg, states := [init cfg], overflow := false, slow := true }
+      (fun s => Stream.step cfg s .parentCancel)
   | ["src", "closed"] => act d (fun s => Stream.step d.cfg s .srcCloseRet)
   -- virtual time passes with everything blocked: no label of the LTS of the code as it is; for code whose
   -- context can end by itself the closure below lets `libCtxEnd` happen
